@@ -239,7 +239,7 @@ Fixpoint dfs (fuel : nat) (c : cfg) (x : sst) (evs : list ev) (m : memo) (budget
   end.
 
 Definition search_depth := 4000.
-Definition search_budget : N := 40000.
+Definition search_budget : N := 20000.
 
 (* nodes visited by the search (for the evidence) *)
 Definition search_cost (c : cfg) (evs : list ev) : N :=
